@@ -9,8 +9,8 @@ package props
 import (
 	"bytes"
 	"crypto/ecdsa"
-	"encoding/hex"
 	"crypto/sha256"
+	"encoding/hex"
 	"fmt"
 	"math/big"
 	"sort"
@@ -34,6 +34,9 @@ import (
 	p2ptypes "github.com/ontio/ontology/p2pserver/message/types"
 	nutils "github.com/ontio/ontology/smartcontract/service/native/utils"
 	"github.com/ontio/ontology/vm/neovm"
+
+	"github.com/ontio/ontology/smartcontract/service/native/global_params"
+	sneovm "github.com/ontio/ontology/smartcontract/service/neovm"
 
 	"ontosim/simkit"
 	"ontosim/world"
@@ -180,6 +183,8 @@ type clWorld struct {
 	nonce      uint32
 	ts         uint32
 	pendingEth map[ethcomm.Address]uint64 // EIP-155 transactions generated for the block being built
+	prepared   bool                       // a setGlobalParam succeeded
+	repriced   bool                       // ... and a later createSnapshot activated it
 	strict     bool                       // only canonical scripts, no Ethereum-type keys in Ontology-format transactions
 }
 
@@ -292,6 +297,8 @@ func (w *clWorld) candidateAddrs() []common.Address {
 			out = append(out, a)
 		}
 	}
+	add(common.ADDRESS_EMPTY)
+	add(nutils.OntContractAddress)
 	for _, p := range w.parties {
 		add(p.addr(w.c))
 		for _, a := range p.accs {
@@ -309,7 +316,10 @@ func (w *clWorld) candidateAddrs() []common.Address {
 // lets the client use any accepted key encoding / key order in its scripts.
 func (w *clWorld) genTxBytes(allowNonCanonical bool) (raw []byte, desc string) {
 	c, t := w.c, w.c.Tape
-	kind := t.Pick(5, 3, 2, 2, 2)
+	kind := t.Pick(5, 3, 2, 2, 2, 1)
+	if kind == 5 {
+		return w.genParamTx()
+	}
 	if kind == 4 {
 		// EIP-155 value transfer
 		e := w.eth[t.Choose(len(w.eth))]
@@ -346,9 +356,19 @@ func (w *clWorld) genTxBytes(allowNonCanonical bool) (raw []byte, desc string) {
 			from = signers[t.Choose(len(signers))]
 		}
 		to := w.parties[t.Choose(len(w.parties))]
+		fromAddr, toAddr, fromName, toName := from.addr(c), to.addr(c), from.name, to.name
+		// addresses nobody holds a key for: the all-zero address ("burnt" funds) and a native contract
+		switch t.Pick(12, 1, 1, 1) {
+		case 1:
+			toAddr, toName = common.ADDRESS_EMPTY, "zero-address"
+		case 2:
+			fromAddr, fromName = common.ADDRESS_EMPTY, "zero-address"
+		case 3:
+			fromAddr, fromName = nutils.OntContractAddress, "ont-contract"
+		}
 		asset := []string{"ont", "ong"}[t.Choose(2)]
-		code = w.transferCode(asset, from.addr(c), to.addr(c), uint64(1+t.Choose(20)))
-		desc = fmt.Sprintf("%s transfer %s->%s", asset, from.name, to.name)
+		code = w.transferCode(asset, fromAddr, toAddr, uint64(1+t.Choose(20)))
+		desc = fmt.Sprintf("%s transfer %s->%s", asset, fromName, toName)
 	case 1:
 		code = witnessProbeCode(w.candidateAddrs())
 		desc = "witness probe"
@@ -360,7 +380,11 @@ func (w *clWorld) genTxBytes(allowNonCanonical bool) (raw []byte, desc string) {
 		desc = "probe+map"
 	}
 	w.nonce++
-	mt := world.InvokeTx(code, 0, 200000, w.nonce, payer)
+	gasPrice := []uint64{0, 0, 0, 500, 2500}[t.Choose(5)]
+	mt := world.InvokeTx(code, gasPrice, 200000, w.nonce, payer)
+	if gasPrice > 0 {
+		desc += fmt.Sprintf(" gasprice=%d", gasPrice)
+	}
 	if kind == 0 && t.Prob(1, 6) {
 		// a deploy instead
 		mt.TxType = types.Deploy
@@ -387,6 +411,33 @@ func (w *clWorld) genTxBytes(allowNonCanonical bool) (raw []byte, desc string) {
 	return clAssemble(c, mt, sets), fmt.Sprintf("%s signers=[%s] noncanonical-script=%v", desc, names, nonCanon)
 }
 
+// genParamTx: the parameter operator (the bookkeeper on a solo network)
+// prepares new gas-table prices or activates the prepared ones.
+func (w *clWorld) genParamTx() ([]byte, string) {
+	c, t := w.c, w.c.Tape
+	book := w.parties[0]
+	var mt *types.MutableTransaction
+	var err error
+	var desc string
+	w.nonce++
+	if t.Prob(1, 2) {
+		var ps []*global_params.Param
+		for k, n := 0, 1+t.Choose(3); k < n; k++ {
+			key := sneovm.GAS_TABLE_KEYS[t.Choose(len(sneovm.GAS_TABLE_KEYS))]
+			val := []string{"1", "200", "1000", "30000", "100000"}[t.Choose(5)]
+			ps = append(ps, &global_params.Param{Key: key, Value: val})
+			desc += fmt.Sprintf(" %s=%s", key, val)
+		}
+		mt, err = world.NativeTx(nutils.ParamContractAddress, 0, "setGlobalParam", []interface{}{ps}, 0, 200000, w.nonce, book.addr(c))
+		desc = "setGlobalParam" + desc
+	} else {
+		mt, err = world.NativeTx(nutils.ParamContractAddress, 0, "createSnapshot", []interface{}{[]byte{}}, 0, 200000, w.nonce, book.addr(c))
+		desc = "createSnapshot"
+	}
+	c.Must(err, "param tx")
+	return clAssemble(c, mt, []clSigSet{clSignSet(c, book, mt.Hash(), true)}), desc + " signers=[book,]"
+}
+
 // fundParties gives every party ONT and ONG from the bookkeeper (block 1).
 func (w *clWorld) fund() {
 	c := w.c
@@ -394,7 +445,11 @@ func (w *clWorld) fund() {
 	for _, p := range w.parties[1:] {
 		for _, asset := range []string{"ont", "ong"} {
 			w.nonce++
-			mt, err := world.TransferTx(asset, w.A.Book.Address, p.addr(c), 100000, 0, 20000, w.nonce, w.A.Book.Address)
+			amount := uint64(100000)
+			if asset == "ong" {
+				amount = 10000000000000 // fees of gas-priced transactions
+			}
+			mt, err := world.TransferTx(asset, w.A.Book.Address, p.addr(c), amount, 0, 20000, w.nonce, w.A.Book.Address)
 			c.Must(err, "fund")
 			c.Must(world.Sign(mt, w.A.Book), "sign")
 			tx, err := world.Seal(mt)
@@ -508,10 +563,19 @@ func clDivergenceSig(w *clWorld, blk *types.Block) string {
 }
 
 // acceptTx is node A's intake: decode bytes, validate.
-func acceptTx(raw []byte) (*types.Transaction, string) {
+func acceptTx(raw []byte) (*types.Transaction, string) { return acceptTxVia(raw, false) }
+
+// acceptTxVia: with senderCheckFirst the transaction object passes the tx
+// pool's sender-limit check (GetSignatureAddresses) before the validator sees
+// it, as for transactions of a proposed block (TXPoolServer.verifyBlock) and
+// for submissions with pre-execution enabled (preExecCheck).
+func acceptTxVia(raw []byte, senderCheckFirst bool) (*types.Transaction, string) {
 	tx, err := types.TransactionFromRawBytes(append([]byte(nil), raw...))
 	if err != nil {
 		return nil, "decode: " + err.Error()
+	}
+	if senderCheckFirst {
+		_ = tx.GetSignatureAddresses()
 	}
 	if code := validation.VerifyTransaction(tx); code != ontErrors.ErrNoError {
 		return nil, "validate: " + code.Error()
